@@ -284,3 +284,187 @@ Proof.
   rewrite Ej. replace (- (1 - 0 * 0 + B * j)) with (B - 1 + (- j - 1) * B) by ring.
   rewrite Z.mod_add by lia. apply Z.mod_small; lia.
 Qed.
+
+(** ** montgomery: the row loop *)
+Lemma firstn_len_app (l r : list Z) k : k = length l -> firstn k (l ++ r) = l.
+Proof. intros ->. induction l; cbn [length firstn app]; [destruct r; reflexivity|f_equal; auto]. Qed.
+Lemma skipn_len_app (l r : list Z) k : k = length l -> skipn k (l ++ r) = r.
+Proof. intros ->. induction l; cbn [length skipn app]; auto. Qed.
+Lemma zeros_S k : zeros (S k) = 0 :: zeros k. Proof. reflexivity. Qed.
+Lemma zeros_snoc k l : zeros k ++ 0 :: l = zeros (S k) ++ l.
+Proof. induction k; cbn [zeros repeat app] in *; [reflexivity|f_equal; auto]. Qed.
+
+Lemma carry_pair c c2 c3 : bit c -> digit c2 -> digit c3 ->
+  let cx := (c + c2) mod B in let cy := (cx + c3) mod B in
+  let c' := if (cx <? c2) || (cy <? c3) then 1 else 0 in
+  bit c' /\ digit cy /\ c' * B + cy = c + c2 + c3.
+Proof.
+  intros Hc H2 H3 cx cy c'. unfold c'; clear c'. unfold bit, digit in *. pose proof B_pos. pose proof B_gt1.
+  assert (Hcx : 0 <= cx < B) by (apply Z.mod_pos_bound; lia).
+  assert (Hcy : 0 <= cy < B) by (apply Z.mod_pos_bound; lia).
+  destruct (Z.ltb_spec (c + c2) B) as [Hs|Hs].
+  - assert (Ecx : cx = c + c2) by (apply Z.mod_small; lia).
+    replace (cx <? c2) with false by (symmetry; apply Z.ltb_ge; lia). cbn [orb].
+    destruct (Z.ltb_spec (cx + c3) B) as [Ht|Ht].
+    + assert (Ecy : cy = cx + c3) by (apply Z.mod_small; lia).
+      replace (cy <? c3) with false by (symmetry; apply Z.ltb_ge; lia). lia.
+    + assert (Ecy : cy = cx + c3 - B) by (symmetry; apply Z.mod_unique_pos with 1; lia).
+      replace (cy <? c3) with true by (symmetry; apply Z.ltb_lt; lia). lia.
+  - assert (Ecx : cx = 0) by (symmetry; apply Z.mod_unique_pos with 1; lia).
+    replace (cx <? c2) with true by (symmetry; apply Z.ltb_lt; lia). cbn [orb].
+    assert (Ecy : cy = c3) by (unfold cy; rewrite Ecx; apply Z.mod_small; lia). lia.
+Qed.
+
+Lemma val_mod_B l : val l mod B = hd 0 l mod B.
+Proof.
+  destruct l as [|d l]; [reflexivity|]. rewrite val_cons. cbn [hd].
+  rewrite Z.mul_comm, Z.mod_add by (pose proof B_pos; lia). reflexivity.
+Qed.
+
+Section Rows.
+Variable p : modpow_params.
+Hypothesis Hp : modpow_ok p = true.
+Variables (x m : list Z) (k : Z) (n : nat).
+Hypothesis Wx : wf x.
+Hypothesis Wm : wf m.
+Hypothesis Lx : length x = n.
+Hypothesis Lm : length m = n.
+Hypothesis Hk : digit k.
+Hypothesis Hkm : (k * hd 0 m) mod B = B - 1.
+
+Lemma mont_rows_spec : forall ys i win c Yi T,
+  wf ys -> (i + length ys = n)%nat -> length win = n -> wf win -> bit c ->
+  (val win + c * B ^ Z.of_nat n) * B ^ Z.of_nat i = val x * Yi + T * val m -> 0 <= T < B ^ Z.of_nat i ->
+  exists win' c' T',
+    mont_rows p x m k n ys i (zeros i ++ win ++ zeros (n - i)) c = Ret (zeros n ++ win' ++ zeros (n - n), c') /\
+    length win' = n /\ wf win' /\ bit c' /\
+    (val win' + c' * B ^ Z.of_nat n) * B ^ Z.of_nat n = val x * (Yi + B ^ Z.of_nat i * val ys) + T' * val m /\
+    0 <= T' < B ^ Z.of_nat n.
+Proof.
+  destruct (modpow_ok_inv p Hp) as (_ & Ecx & Ecy & _).
+  induction ys as [|yi ys IH]; intros i win c Yi T Wy Hi Lw Ww Hc Hinv HT.
+  - cbn [length] in Hi. assert (i = n) by lia. subst i. exists win, c, T.
+    cbn [mont_rows val]. repeat split; auto; try lia; rewrite Hinv; ring.
+  - apply wf_cons in Wy as [Hyi Wy]. cbn [length] in Hi. cbn [mont_rows].
+    assert (Lz : length (zeros i) = i) by apply length_zeros.
+    rewrite (firstn_len_app (zeros i)) by auto.
+    rewrite (skipn_len_app (zeros i)) by auto.
+    rewrite (firstn_len_app win) by auto.
+    replace (skipn (n + i) (zeros i ++ win ++ zeros (n - i))) with (zeros (n - i)).
+    2:{ rewrite app_assoc. symmetry. apply skipn_len_app. rewrite app_length; lia. }
+    destruct (add_mul_vvw_spec win x yi Ww Wx Hyi ltac:(lia)) as (win1 & c2 & E2 & W1 & L1 & Hc2 & V1).
+    rewrite E2. cbn [bind].
+    destruct win1 as [|w0 w1t]; [cbn [length] in L1; lia|]. cbn [bind].
+    set (t := (w0 * k) mod B).
+    assert (Ht : digit t) by (apply Z.mod_pos_bound, B_pos).
+    destruct (add_mul_vvw_spec (w0 :: w1t) m t W1 Wm Ht ltac:(lia)) as (win2 & c3 & E3 & W2 & L2 & Hc3 & V2).
+    rewrite E3. cbn [bind].
+    replace (n - i)%nat with (S (n - S i)) by lia. rewrite zeros_S. cbn [bind].
+    rewrite Ecx, Ecy. cbn [cmp_eval].
+    pose proof (carry_pair c c2 c3 Hc Hc2 Hc3) as Hcp. cbv zeta in Hcp.
+    set (cx := (c + c2) mod B) in *. set (cy := (cx + c3) mod B) in *.
+    set (c' := if (cx <? c2) || (cy <? c3) then 1 else 0) in *.
+    destruct Hcp as (Hc' & Hcy & Ecar).
+    (* the low digit of win2 is zero *)
+    destruct win2 as [|v0 w2t]; [cbn [length] in L2; lia|].
+    apply wf_cons in W2 as [Hv0 W2t]. pose proof B_pos as HB.
+    assert (Ev0 : v0 = 0).
+    { assert (Hmod : (val (v0 :: w2t) + B ^ Z.of_nat (length (w0 :: w1t)) * c3) mod B = (val (w0 :: w1t) + val m * t) mod B)
+        by (rewrite V2; reflexivity).
+      replace (length (w0 :: w1t)) with (S (length w1t)) in Hmod by reflexivity.
+      rewrite B_pow_S in Hmod.
+      replace (val (v0 :: w2t) + B * B ^ Z.of_nat (length w1t) * c3)
+        with (val (v0 :: w2t) + (B ^ Z.of_nat (length w1t) * c3) * B) in Hmod by ring.
+      rewrite Z.mod_add in Hmod by lia. rewrite val_mod_B in Hmod. cbn [hd] in Hmod.
+      rewrite Z.add_mod, Z.mul_mod, !val_mod_B in Hmod by lia. cbn [hd] in Hmod.
+      unfold t in Hmod. rewrite Z.mod_mod in Hmod by lia.
+      rewrite <- Z.mul_mod, <- Z.add_mod in Hmod by lia.
+      assert (Ek : exists j, k * hd 0 m = B - 1 + B * j).
+      { exists (k * hd 0 m / B). rewrite <- Hkm. rewrite Z.mod_eq by lia. ring. }
+      destruct Ek as (j & Ej).
+      replace (w0 + hd 0 m * (w0 * k)) with (w0 * (1 + k * hd 0 m)) in Hmod by ring.
+      rewrite Ej in Hmod. replace (w0 * (1 + (B - 1 + B * j))) with (0 + (w0 * (1 + j)) * B) in Hmod by ring.
+      rewrite Z.mod_add, Z.mod_0_l in Hmod by lia.
+      unfold digit in Hv0. rewrite Z.mod_small in Hmod by lia. exact Hmod. }
+    subst v0.
+    replace (zeros i ++ (0 :: w2t) ++ cy :: zeros (n - S i))
+      with (zeros (S i) ++ (w2t ++ [cy]) ++ zeros (n - S i)).
+    2:{ rewrite <- zeros_snoc. cbn [app]. rewrite <- !app_assoc. reflexivity. }
+    cbn [length] in L1, L2.
+    assert (Lw' : length (w2t ++ [cy]) = n) by (rewrite app_length; cbn [length]; lia).
+    assert (Ww' : wf (w2t ++ [cy])) by (apply wf_app; split; [auto|apply wf_cons; split; [auto|apply wf_nil]]).
+    assert (Vw' : val (w2t ++ [cy]) = val w2t + B ^ Z.of_nat (length w2t) * cy).
+    { rewrite val_app, val_single. reflexivity. }
+    assert (EBn : B ^ Z.of_nat n = B * B ^ Z.of_nat (length w2t)).
+    { replace n with (S (length w2t)) by lia. apply B_pow_S. }
+    assert (Hstep : (val (w2t ++ [cy]) + c' * B ^ Z.of_nat n) * B =
+                    val win + c * B ^ Z.of_nat n + val x * yi + val m * t).
+    { rewrite Vw'. rewrite val_cons in V2.
+      replace (length (w0 :: w1t)) with n in V2 by (cbn [length]; lia).
+      replace (length win) with n in V1 by lia.
+      set (Bn := B ^ Z.of_nat n) in *. set (Bn1 := B ^ Z.of_nat (length w2t)) in *.
+      set (vw := val win) in *. set (vx := val x) in *. set (vm := val m) in *.
+      set (v1 := val (w0 :: w1t)) in *. set (v2 := val w2t) in *.
+      replace ((v2 + Bn1 * cy + c' * Bn) * B) with (B * v2 + Bn * (c' * B + cy)) by (rewrite EBn; ring).
+      rewrite Ecar. lia. }
+    destruct (IH (S i) (w2t ++ [cy]) c' (Yi + B ^ Z.of_nat i * yi) (T + t * B ^ Z.of_nat i))
+      as (win' & cf & T' & E & Lf & Wf & Hcf & Vf & HT'); auto; try lia.
+    { rewrite B_pow_S.
+      replace ((val (w2t ++ [cy]) + c' * B ^ Z.of_nat n) * (B * B ^ Z.of_nat i))
+        with (((val (w2t ++ [cy]) + c' * B ^ Z.of_nat n) * B) * B ^ Z.of_nat i) by ring.
+      rewrite Hstep.
+      replace ((val win + c * B ^ Z.of_nat n + val x * yi + val m * t) * B ^ Z.of_nat i)
+        with ((val win + c * B ^ Z.of_nat n) * B ^ Z.of_nat i + (val x * yi + val m * t) * B ^ Z.of_nat i) by ring.
+      rewrite Hinv. ring. }
+    { rewrite B_pow_S. unfold digit in Ht. pose proof (B_pow_nat i). nia. }
+    exists win', cf, T'. split; [exact E|]. repeat split; auto; try lia.
+    rewrite Vf, val_cons, B_pow_S. ring.
+Qed.
+End Rows.
+
+(** ** montgomery: almost-Montgomery multiplication.
+    For operands of exactly [n] digits (so [< B^n]) the result has exactly [n] digits
+    (so [< B^n]: no further bound is needed), no internal assertion fires, and
+    [r * B^n = x * y + T * m] for some integer [T], i.e. [r ≡ x*y*B^-n (mod m)]. *)
+Theorem montgomery_spec p x y m k n : modpow_ok p = true ->
+  wf x -> wf y -> wf m -> length x = n -> length y = n -> length m = n ->
+  digit k -> (k * hd 0 m) mod B = B - 1 ->
+  exists r, montgomery p x y m k n = Ret r /\ wf r /\ length r = n /\
+    exists T, val r * B ^ Z.of_nat n = val x * val y + T * val m.
+Proof.
+  intros Hp Wx Wy Wm Lx Ly Lm Hk Hkm. destruct (modpow_ok_inv p Hp) as (_ & _ & _ & Ec & _).
+  unfold montgomery. rewrite Lx, Ly, Lm, Nat.eqb_refl. cbn [andb assert_ bind].
+  assert (Ez : zeros (2 * n) = zeros 0 ++ zeros n ++ zeros (n - 0)).
+  { cbn [zeros repeat app]. unfold zeros. rewrite <- repeat_app. f_equal. lia. }
+  rewrite Ez.
+  destruct (mont_rows_spec p Hp x m k n Wx Wm Lx Lm Hkm y 0%nat (zeros n) 0 0 0)
+    as (win' & c' & T' & E & Lw & Ww & Hc' & V & HT'); auto.
+  { apply length_zeros. } { apply wf_zeros. } { left; reflexivity. }
+  { rewrite val_zeros. ring. } { cbn; lia. }
+  rewrite E. cbn [bind]. rewrite Ec. cbn [cmp_eval].
+  replace (n - n)%nat with 0%nat by lia. cbn [zeros repeat]. rewrite app_nil_r.
+  rewrite (skipn_len_app (zeros n)) by (symmetry; apply length_zeros).
+  rewrite (firstn_len_app (zeros n)) by (symmetry; apply length_zeros).
+  cbn [Z.of_nat] in V. rewrite Z.pow_0_r in V.
+  destruct Hc' as [-> | ->].
+  - cbn [Z.eqb]. exists win'. repeat split; auto. exists T'. lia.
+  - cbn [Z.eqb]. unfold sub_vv.
+    pose proof (sub_vv_c_spec (zeros n) win' m 0 Ww Wm (or_introl eq_refl)) as Hs.
+    rewrite length_zeros in Hs. specialize (Hs (eq_sym Lw) (eq_trans Lw (eq_sym Lm))).
+    destruct (sub_vv_c (zeros n) win' m 0) as [z'' c'']. destruct Hs as (Wz & Lz & Hc'' & Vz).
+    exists z''. split; [reflexivity|]. split; [auto|]. split; [lia|].
+    rewrite Lw in Vz. pose proof (val_bound z'' Wz) as Bz. rewrite Lz, Lw in Bz.
+    pose proof (val_bound x Wx) as Bx. pose proof (val_bound y Wy) as By. pose proof (val_bound m Wm) as Bm.
+    rewrite Lx in Bx. rewrite Ly in By. rewrite Lm in Bm.
+    pose proof (val_bound win' Ww) as Bw. rewrite Lw in Bw.
+    set (Bn := B ^ Z.of_nat n) in *. pose proof (B_pow_nat n) as HBn. fold Bn in HBn.
+    assert (Hlt : val win' < val m).
+    { assert ((val win' + 1 * Bn) * Bn < (Bn + val m) * Bn); [|nia].
+      rewrite V. replace (0 + 1 * val y) with (val y) by ring.
+      assert (val x * val y <= Bn * Bn) by nia.
+      assert (T' * val m < Bn * val m \/ val m = 0) by nia. nia. }
+    assert (c'' = 1) by (destruct Hc'' as [-> | ->]; [exfalso; lia|reflexivity]). subst c''.
+    exists (T' - Bn). replace (val z'') with (val win' + 1 * Bn - val m) by lia.
+    replace ((val win' + 1 * Bn - val m) * Bn) with ((val win' + 1 * Bn) * Bn - val m * Bn) by ring.
+    rewrite V. ring.
+Qed.
